@@ -26,7 +26,8 @@ type Peers struct {
 	snowflakeChan chan *WebRTCPeer
 	activePeers   *list.List
 
-	melt chan struct{}
+	melt     chan struct{}
+	meltOnce sync.Once
 
 	collectLock sync.Mutex
 }
@@ -122,17 +123,20 @@ func (p *Peers) purgeClosedPeers() {
 // End closes all active connections to Peers contained here, and stops the
 // collection of future Peers.
 func (p *Peers) End() {
-	close(p.melt)
-	p.collectLock.Lock()
-	defer p.collectLock.Unlock()
-	close(p.snowflakeChan)
-	cnt := p.Count()
-	for e := p.activePeers.Front(); e != nil; {
-		next := e.Next()
-		conn := e.Value.(*WebRTCPeer)
-		conn.Close()
-		p.activePeers.Remove(e)
-		e = next
-	}
-	log.Printf("WebRTC: melted all %d snowflakes.", cnt)
+	// End may be called more than once (SnowflakeConn.Close is).
+	p.meltOnce.Do(func() {
+		close(p.melt)
+		p.collectLock.Lock()
+		defer p.collectLock.Unlock()
+		close(p.snowflakeChan)
+		cnt := p.Count()
+		for e := p.activePeers.Front(); e != nil; {
+			next := e.Next()
+			conn := e.Value.(*WebRTCPeer)
+			conn.Close()
+			p.activePeers.Remove(e)
+			e = next
+		}
+		log.Printf("WebRTC: melted all %d snowflakes.", cnt)
+	})
 }
